@@ -17,7 +17,7 @@ TECHNIQUE = ("model-based stateful testing (Hypothesis-generated histories, shru
              "drives the agent's engine clock and every clock source the client could consult (time.time, time.monotonic, "
              "perf_counter and therefore loop.time): request / advance(dt) / reboot steps; oracle = discovery first, discovered "
              "engine id used, foreign discovery msgID refused, no untimely message on the wire except the first after a restart of the engine, and every request the model expects to succeed succeeds")
-RULE = ("case = security level {noAuthNoPriv, authNoPriv MD5/SHA-1, authPriv} x optional configured context engine id x discovery "
+RULE = ("case = security level {noAuthNoPriv, authNoPriv MD5/SHA-1, authPriv} x agent engine id of 5..32 octets x optional configured context engine id x discovery "
         "reply variant {conformant, foreign msgID (+1, -1, random), no bindings, Response instead of Report} x history of 2..30 "
         "steps from {request(get | getnext | set | walk, optionally inside a reconfigure block), advance(dt in 1, 30, 149, 151, 3600, 86400 x k), reboot, poll(n in 120..400 requests spaced 0.4..1.3 s)}, discovery Report optionally naming another context engine, usmStats counters starting anywhere in Counter32 (the Report may carry 0); non-trivial = "
         ">= 2 requests separated by an advance, or a reboot between requests, or a non-conformant discovery reply; distinct = "
@@ -56,6 +56,8 @@ def run_case(case, exclude_known=True) -> Result:
     proto = dict(case["proto"])
     if case.get("ctx_engine"):
         proto["ctx_engine"] = case["ctx_engine"]
+    if case.get("engine_id"):
+        proto["engine_id"] = case["engine_id"]       # the agent's snmpEngineID: any 5..32 octets
     level_auth = bool(proto.get("algo"))
     classes = {vworld.proto_label(proto)}
     if level_auth:
@@ -245,6 +247,9 @@ def cases(draw, max_steps=12):
                 start=draw(st.sampled_from([1_700_000_000, 1_700_000_000.75, 5, 2 ** 31 - 10 ** 8])))
     if draw(st.integers(0, 4)) == 0:
         case["ctx_engine"] = draw(st.sampled_from([b"\x80\x00\x1f\x88\x04other-ctx", b"\x80\x00\x00\x09\x05" + b"\x00" * 12])).hex()
+    if draw(st.integers(0, 3)) == 0:
+        case["engine_id"] = draw(st.sampled_from([b"12345", b"\xff" * 32, b"\x80\x00\x1f\x88\x04" + b"e" * 27,
+                                                  b"\x80\x00\x00\x09\x05" + b"\x00" * 12, b"\x00" * 5])).hex()
     if draw(st.integers(0, 2)) == 0:
         # the agent's usmStats counters did not start at zero: the discovery Report may carry any Counter32 value, 0 included
         case["counter_base"] = draw(st.sampled_from([2 ** 32 - 1, 2 ** 32 - 1, 2 ** 32 - 2, 41, 2 ** 31 - 1, 2 ** 31]))
